@@ -15,7 +15,7 @@ def ShelvesOk (s : CState) : Prop := ∀ kc ∈ s.shelves, kc.2 = .complete kc.1
 /-- a process past a successful unpack holds the complete, verified fileset in its temp dir -/
 def ProcOk (p : Proc) : Prop :=
   match p.pc with
-  | .atUnpacked rid | .atRename rid => p.tmp = some (.complete rid)
+  | .atUnpacked rid | .atRename rid => p.tmp = some (.complete (shelfKey p rid))
   | .atLookup | .atTmp | .atRenamed _ | .atPlace _ _ | .done _ => p.tmp = none
   | .unpacking => True
 
@@ -74,15 +74,15 @@ theorem C09_inv_step (s : CState) (i : Nat) (h : Inv s) : Inv (cstep s i) := by
       simp only
       cases p.yield with
       | error c => exact inv_setProc _ _ _ h (by simp [ProcOk])
-      | ok rid => exact inv_setProc _ _ _ h (by simp [ProcOk])
+      | ok rid => exact inv_setProc _ _ _ h (by simp [ProcOk, shelfKey])
     | atUnpacked rid =>
-      exact inv_setProc _ _ _ h (by simp [ProcOk, hpc] at hp; simp [ProcOk, hp])
+      exact inv_setProc _ _ _ h (by simp [ProcOk, hpc] at hp; simp [ProcOk, hp, shelfKey])
     | atRename rid =>
       simp only
       split
       · exact inv_setProc _ _ _ h (by simp [ProcOk])
-      · have htmp : p.tmp = some (.complete rid) := by simpa [ProcOk, hpc] using hp
-        have h' : Inv { s with shelves := (rid, p.tmp.getD .partial_) :: s.shelves } := by
+      · have htmp : p.tmp = some (.complete (shelfKey p rid)) := by simpa [ProcOk, hpc] using hp
+        have h' : Inv { s with shelves := (shelfKey p rid, p.tmp.getD .partial_) :: s.shelves } := by
           refine ⟨?_, h.2⟩
           intro kc hkc
           simp only [List.mem_cons] at hkc
@@ -131,14 +131,42 @@ theorem C09_fail_adds_nothing (s : CState) (i : Nat) (p : Proc) (c : Cat)
 /-- **The loser of a rename race succeeds**: if the shelf already exists at rename time the process goes on to
     place from it and reports the same wareID. -/
 theorem C09_race_loser_succeeds (s : CState) (i : Nat) (p : Proc) (rid : WareId)
-    (hg : s.procs[i]? = some p) (hpc : p.pc = .atRename rid) (hs : hasShelf s rid = true) :
-    (cstep s i).procs[i]? = some { p with pc := .atPlace rid rid, tmp := none } ∧ (cstep s i).shelves = s.shelves := by
+    (hg : s.procs[i]? = some p) (hpc : p.pc = .atRename rid) (hs : hasShelf s (shelfKey p rid) = true) :
+    (cstep s i).procs[i]? = some { p with pc := .atPlace (shelfKey p rid) rid, tmp := none } ∧ (cstep s i).shelves = s.shelves := by
   have hi : i < s.procs.length := by
     rcases List.getElem?_eq_some_iff.1 hg with ⟨h, _⟩; exact h
   unfold cstep
   rw [hg]
   simp only [hpc, hs, if_true]
   exact ⟨by simp [setProc, hi], rfl⟩
+
+/-- **A filtered tree never lands on the shelf lossless requests are served from** (the keyed shelf of the `fix:`): the
+    commit step of a process with an altering filter whose tool reported the requested id itself adds a shelf under a
+    key that no lookup uses — lookups of altering requests use `-`, lookups of lossless requests use a ware id, and
+    neither ends in the `+` mark as long as ware ids do not (base58 has no `+`). -/
+theorem C09_filtered_tree_off_the_lossless_shelf (s : CState) (i : Nat) (p : Proc) (rid : WareId)
+    (hg : s.procs[i]? = some p) (hpc : p.pc = .atRename rid) (halt : p.altering = true) (hsame : rid = p.req)
+    (q : Proc) (hq : q.altering = false) (hid : q.req.getLast? ≠ some 0x2b) :
+    ∀ kc ∈ (cstep s i).shelves, kc ∉ s.shelves → kc.1 ≠ lookupKey q := by
+  intro kc hkc hnew
+  unfold cstep at hkc
+  rw [hg] at hkc
+  simp only [hpc] at hkc
+  split at hkc
+  · exact absurd hkc hnew
+  · simp only [setProc, List.mem_cons] at hkc
+    rcases hkc with rfl | hkc
+    · simp only [lookupKey, hq, shelfKey, halt, hsame]
+      intro heq
+      simp at heq
+      rw [← heq] at hid
+      simp at hid
+    · exact absurd hkc hnew
+
+/-- …and an unaltered tree (or a filtered tree with an id of its own) is shelved under exactly the reported id. -/
+theorem C09_shelfKey_plain (p : Proc) (rid : WareId) (h : p.altering = false ∨ rid ≠ p.req) : shelfKey p rid = rid := by
+  unfold shelfKey
+  rcases h with h | h <;> simp [h]
 
 /-- **T-fact tie for the model's per-process temp dir.**  `Proc.tmp` is private to a process: the model assumes two
     processes never pick the same `.tmp.unpack.*` name.  In the code the name is `guid.New()`; it is fresh within
@@ -153,5 +181,13 @@ example :
     let s := runSchedule (initState [mkProc [1] false .copy (.ok [1]), mkProc [1] false .none_ (.ok [1])] [])
       [0, 1, 0, 1, 0, 1, 0, 1, 0, 0, 1, 1, 0, 1, 0, 1]
     s.procs.map (·.pc) = [.done (.ok [1]), .done (.ok [1])] ∧ s.shelves = [([1], .complete [1])] := by decide
+
+/-- non-vacuity (a test): an altering request whose tool reports the requested id (git; `dev=ignore`), then a lossless
+    request for the same ware: two shelves, the lossless one is not served from the filtered tree. -/
+example :
+    let s := runSchedule (initState [mkProc [1] true .copy (.ok [1]), mkProc [1] false .copy (.ok [1])] [])
+      [0, 0, 0, 0, 0, 0, 0, 0, 1, 1, 1, 1, 1, 1, 1, 1]
+    s.procs.map (·.pc) = [.done (.ok [1]), .done (.ok [1])] ∧
+      s.shelves = [([1], .complete [1]), ([1, 0x2b], .complete [1, 0x2b])] := by decide
 
 end Rio
